@@ -15,6 +15,32 @@ from .loader import clone
 from .poly import P
 
 
+def helper_alternatives(fn):
+    """[(kind, a, b)] in source order for a helper in the fragment
+           [docstring]  (if T: return E)*  ( return E  |  try: return E  except ..: return V )
+       kinds: ("if", T, E), ("ret", E, None), ("try", E, V); None outside the fragment."""
+    body = [s for s in fn.body if not (isinstance(s, ast.Expr) and isinstance(s.value, ast.Constant))]
+    if not body or fn.args.vararg or fn.args.kwarg or fn.args.kwonlyargs or fn.decorator_list:
+        return None
+    none = ast.Constant(value=None)
+    out = []
+    for s in body[:-1]:
+        if isinstance(s, ast.If) and not s.orelse and len(s.body) == 1 and isinstance(s.body[0], ast.Return):
+            out.append(("if", s.test, s.body[0].value or none))
+        else:
+            return None
+    last = body[-1]
+    if isinstance(last, ast.Return):
+        out.append(("ret", last.value or none, None))
+    elif isinstance(last, ast.Try) and len(last.body) == 1 and isinstance(last.body[0], ast.Return) and last.body[0].value is not None \
+            and len(last.handlers) == 1 and len(last.handlers[0].body) == 1 and isinstance(last.handlers[0].body[0], ast.Return) \
+            and not last.orelse and not last.finalbody:
+        out.append(("try", last.body[0].value, last.handlers[0].body[0].value or none))
+    else:
+        return None
+    return out
+
+
 class NeedCase(Exception):
     def __init__(self, test):
         self.test = test
@@ -93,6 +119,7 @@ class Valuer:
         self.bool_defs = {}               # local name -> the Boolean expression it was bound to (fits = is_guard() and ..)
         self.exact_int = False            # integer semantics: `x % modulus` is not x (Python-agreement rules of C05)
         self.uninterp = False             # unknown calls become uninterpreted function symbols (lock-step rule of C04)
+        self.helpers = {}                 # name -> FunctionDef of module-level helpers evaluated in place (helper_alternatives)
 
     # -------------------------------------------------------------- assumptions
     def assume(self, test, truth):
@@ -135,6 +162,17 @@ class Valuer:
             if a is NONE and truth:
                 raise Contradiction(txt)
             if isinstance(a, P) and a.is_const() and (a.const_value() != 0) != truth:
+                raise Contradiction(txt)
+        if isinstance(t, ast.Compare) and len(t.ops) == 1 and isinstance(t.ops[0], (ast.Is, ast.IsNot)) \
+                and isinstance(t.comparators[0], ast.Constant) and t.comparators[0].value is None \
+                and isinstance(t.left, ast.Name) and t.left.id in self.env:
+            a = self.env[t.left.id]
+            known = None
+            if a is NONE:
+                known = isinstance(t.ops[0], ast.Is)
+            elif isinstance(a, P) and a != P.sym(t.left.id):
+                known = isinstance(t.ops[0], ast.IsNot)
+            if known is not None and known != truth:
                 raise Contradiction(txt)
         self.facts.truth[txt] = truth
         if isinstance(t, ast.Call) and txt in ("is_guard()", "ignore_errors()"):
@@ -350,6 +388,11 @@ class Valuer:
                 raise Undecidable("from_bits of a list that is not a recognised decomposition")
             if short == "_ensurelc" and len(n.args) == 1:
                 return self.val(n.args[0])
+            if isinstance(n.func, ast.Name) and n.func.id in self.helpers and not n.keywords \
+                    and not any(isinstance(a, ast.Starred) for a in n.args):
+                r_ = self._helper_value(n, self.helpers[n.func.id])
+                if r_ is not None:
+                    return r_[0]
             if self.uninterp and not n.keywords and not any(isinstance(a, ast.Starred) for a in n.args):
                 # uninterpreted function symbol applied to the value terms of its arguments
                 args = [self._p(a) for a in n.args]
@@ -369,6 +412,35 @@ class Valuer:
                 return lb
             raise Undecidable("list comprehension %s" % txt[:60])
         raise Undecidable(txt[:60])
+
+    def _helper_value(self, call, fn):
+        """(value,) of a call of a small module-level helper, evaluated in place: guard clauses are decided on the argument
+        terms (splitting cases where needed); `try: return E except X: return V` splits on whether E raises - a helper that
+        swallows an exception turns "the run does not complete" into "the run completes with V", which is exactly what the
+        caller's identity must then survive."""
+        alts = helper_alternatives(fn)
+        params = [a.arg for a in fn.args.args]
+        if alts is None or len(params) != len(call.args):
+            return None
+        from .flatten import _Subst
+        from .loader import clone
+        mapping = dict(zip(params, call.args))
+
+        def sub(e):
+            return _Subst(mapping).visit(clone(e))
+        for kind, a, b in alts:
+            if kind == "if":
+                if self.decide(sub(a)):
+                    return (self.val(sub(b)),)
+            elif kind == "ret":
+                return (self.val(sub(a)),)
+            elif kind == "try":
+                body = sub(a)
+                key = ast.Name(id="<%s raises>" % norm(body), ctx=ast.Load())
+                if self.decide(key):
+                    return (self.val(sub(b)),)
+                return (self.val(body),)
+        return None
 
     def _p(self, n):
         v = self.val(n)
